@@ -36,6 +36,10 @@ type Transport struct {
 	WriteErr atomic.Bool
 	// OnClose, if set, is called at the beginning of Close (before it is recorded): a natural gate.
 	OnClose func(d centrifuge.Disconnect)
+	// OnUnidirectional / OnDisabledPushFlags, if set, are called inside the respective TransportInfo calls: natural
+	// gates inside the hub broadcast (payload preparation) and before a push is encoded.
+	OnUnidirectional    func()
+	OnDisabledPushFlags func()
 }
 
 func NewTransport(proto centrifuge.ProtocolType) *Transport {
@@ -47,13 +51,23 @@ func NewTransport(proto centrifuge.ProtocolType) *Transport {
 func (t *Transport) SetPing(p centrifuge.PingPongConfig) { t.ping = p }
 func (t *Transport) SetUnidirectional(u bool)            { t.uni = u }
 
-func (t *Transport) Name() string                            { return "verif" }
-func (t *Transport) AcceptProtocol() string                  { return "" }
-func (t *Transport) Protocol() centrifuge.ProtocolType       { return t.proto }
+func (t *Transport) Name() string                                { return "verif" }
+func (t *Transport) AcceptProtocol() string                      { return "" }
+func (t *Transport) Protocol() centrifuge.ProtocolType           { return t.proto }
 func (t *Transport) ProtocolVersion() centrifuge.ProtocolVersion { return centrifuge.ProtocolVersion2 }
-func (t *Transport) Unidirectional() bool                    { return t.uni }
-func (t *Transport) Emulation() bool                         { return false }
-func (t *Transport) DisabledPushFlags() uint64               { return 0 }
+func (t *Transport) Unidirectional() bool {
+	if f := t.OnUnidirectional; f != nil {
+		f()
+	}
+	return t.uni
+}
+func (t *Transport) Emulation() bool { return false }
+func (t *Transport) DisabledPushFlags() uint64 {
+	if f := t.OnDisabledPushFlags; f != nil {
+		f()
+	}
+	return 0
+}
 func (t *Transport) PingPongConfig() centrifuge.PingPongConfig {
 	if t.ping.PingInterval == 0 {
 		return centrifuge.PingPongConfig{PingInterval: -1} // no server pings unless asked
@@ -485,12 +499,12 @@ type GateBroker struct {
 	handler centrifuge.BrokerEventHandler
 
 	// Gates; nil = pass through. Called on the goroutine that performs the broker call.
-	OnSubscribe     func(ch string)
-	OnUnsubscribe   func(ch string)
-	BeforeHistory   func(ch string, opts centrifuge.HistoryOptions)
-	AfterHistory    func(ch string, opts centrifuge.HistoryOptions, pubs []*centrifuge.Publication, sp centrifuge.StreamPosition)
-	OnPublishJoin   func(ch string, info *centrifuge.ClientInfo)
-	OnPublishLeave  func(ch string, info *centrifuge.ClientInfo)
+	OnSubscribe    func(ch string)
+	OnUnsubscribe  func(ch string)
+	BeforeHistory  func(ch string, opts centrifuge.HistoryOptions)
+	AfterHistory   func(ch string, opts centrifuge.HistoryOptions, pubs []*centrifuge.Publication, sp centrifuge.StreamPosition)
+	OnPublishJoin  func(ch string, info *centrifuge.ClientInfo)
+	OnPublishLeave func(ch string, info *centrifuge.ClientInfo)
 	// RewritePosition, if set, may alter the stream position History reports (e.g. blank the epoch: a lagging replica).
 	RewritePosition func(ch string, sp centrifuge.StreamPosition) centrifuge.StreamPosition
 	SubscribeErr    func(ch string) error
